@@ -32,6 +32,11 @@
   (`C13_*_fixed_witness`) evaluated at the old failing inputs.  Outside this model (state, not
   configuration) and repaired as well (1555fbd): QAdaptiveActivation quantized with the integer
   bits assigned by the previous call; the behavioural tie keeps the trained-EMA regression models.
+
+  Round T13: Python object identity of quantizer objects (one object in several slots; the in-place
+  `_set_trainable_parameter()` of the constructors as a fold over a heap), the clause "reports the
+  same quantizers" (`reportedQuantizers`, table `reportedSlots`), and the process-level switch
+  `set_internal_sigmoid` (`SigmoidMode`, `ModeSem`) — last section of this file.
 -/
 import QKV.Lemmas.LayerConfig
 import QKV.Model.LayerConfigTables
@@ -655,5 +660,142 @@ example {W V : Type} [Inhabited V] (cb : QVal → PyVal) :
       ∀ (S : Sem W V) (ws : Nat → W) (inputs : List V),
         predict (env cb) S m' ws inputs = predict (env cb) S modelEx ws inputs :=
   C13_model_rebuild_predict_partial (env cb) modelEx (modelEx_ok cb) rfl
+
+/-- `quantized_bits(4, 0, 1)`: alpha left at None -/
+def qb4None : QObj := withOption qs_quantized_bits [("bits", .num 4), ("symmetric", .num 1)]
+
+/-! ## strengthening round T13: quantizer OBJECTS shared between slots, reported quantizers,
+       process-level state -/
+
+/-- The in-place switches of a layer constructor run on quantizer OBJECTS, for every class, every
+    heap and every assignment of objects to slots (any sharing): object `j` ends up switched by
+    `_set_trainable_parameter()` iff SOME trainable slot refers to it — independent of the order of
+    the slots and of how many slots share it — and is otherwise untouched. -/
+theorem C13_shared_object_closed_form (E : Env) (spec : LSpec) (ref : String → Option Nat)
+    (h : QHeap) (j : Nat) :
+    constructHeap E spec ref h j = if touched spec ref j then setTr E (h j) else h j :=
+  constructHeap_closed E spec ref h j
+
+/-- One object passed for a trainable slot `t` AND any other slot `k` (kernel and bias, recurrent
+    and state, …): what slot `k` computes with, serialises and reports through `get_quantizers()`
+    is the SWITCHED object — the three coincide because they dereference the same reference. -/
+theorem C13_shared_object_switched_for_every_slot (E : Env) (spec : LSpec)
+    (ref : String → Option Nat) (h : QHeap) (t : Param) (ht : t ∈ spec.params)
+    (htr : t.kind.isTrainableQuant = true) (i : Nat) (hti : ref t.name = some i) (k : String)
+    (hk : ref k = some i) :
+    slotValue (constructHeap E spec ref h) ref k = .obj (setTr E (h i)) := by
+  have htouched : touched spec ref i = true := by
+    unfold touched
+    rw [List.any_eq_true]
+    exact ⟨t, ht, by simp [htr, hti]⟩
+  simp [slotValue, hk, constructHeap_closed, htouched]
+
+/-- an object that no trainable slot refers to is left as the user built it -/
+theorem C13_unshared_object_untouched (E : Env) (spec : LSpec) (ref : String → Option Nat)
+    (h : QHeap) (i : Nat) (hn : touched spec ref i = false) (k : String) (hk : ref k = some i) :
+    slotValue (constructHeap E spec ref h) ref k = .obj (h i) := by
+  simp [slotValue, hk, constructHeap_closed, hn]
+
+/-- The quantizer slots of a layer constructed from (possibly shared) objects are in
+    post-constructor state: running the constructor's normalisation again — which is what a rebuilt
+    layer does with the fresh per-slot objects it gets from the config — changes nothing.  This is
+    the `normal` hypothesis of `LayerOK` for every quantizer slot, for every sharing pattern. -/
+theorem C13_shared_slot_normal (E : Env) (spec : LSpec) (ref : String → Option Nat) (h : QHeap)
+    (p : Param) (hp : p ∈ spec.params) (t : Bool) (hk : p.kind = .quant t) :
+    normLocal E spec p.kind (.q (slotValue (constructHeap E spec ref h) ref p.name)) =
+      .q (slotValue (constructHeap E spec ref h) ref p.name) := by
+  rw [hk]
+  cases hr : ref p.name with
+  | none => simp [slotValue, hr, normLocal, normQ]
+  | some i =>
+    cases t with
+    | false => simp [slotValue, hr, normLocal, normQ]
+    | true =>
+      have htouched : touched spec ref i = true := by
+        unfold touched
+        rw [List.any_eq_true]
+        exact ⟨p, hp, by simp [Kind.isTrainableQuant, hk, hr]⟩
+      simp only [slotValue, hr, normLocal, normQ_obj, constructHeap_closed, htouched, if_true,
+        setTr_idem]
+
+/-- "reports the same quantizers for every layer": under `LayerOK` the rebuilt layer reports, slot
+    by slot, the quantizers the original reports (`get_quantizers()` = the slots `slots` in order),
+    provided every reported slot is a read argument of the class (`C13_reported_slots_read`). -/
+theorem C13_reported_quantizers_roundtrip (E : Env) (spec : LSpec) (L : Layer)
+    (h : LayerOK E spec L) (slots : List String)
+    (hs : ∀ k ∈ slots, ∃ p ∈ spec.params, p.name = k ∧ p.read = true) :
+    ∃ L', layerFromConfig E spec (layerGetConfig E spec L) = .ok L' ∧
+      reportedQuantizers slots L' = reportedQuantizers slots L := by
+  obtain ⟨L', hL', _, _, hread⟩ := C13_layer_roundtrip E spec L h
+  refine ⟨L', hL', ?_⟩
+  unfold reportedQuantizers
+  apply List.map_congr_left
+  intro k hk
+  obtain ⟨p, hp, hpk, hpr⟩ := hs k hk
+  unfold readArgs at hread
+  have hmem : p ∈ spec.params.filter (·.read) := List.mem_filter.mpr ⟨hp, hpr⟩
+  have := (List.map_inj_left.mp hread) p hmem
+  rw [← hpk]
+  simp only [Prod.mk.injEq, true_and] at this
+  rw [this]
+
+/-- table fact: every slot a class lists in `get_quantizers()` is a quantizer parameter of the
+    class that the inference computation reads; and a class that has `get_quantizers()` lists ALL
+    its quantizer parameters -/
+def reportedSlotsOK : Bool :=
+  reportedSlots.all fun cs =>
+    match lSpecs.find? (fun s => s.name == cs.1) with
+    | some s =>
+      (cs.2.all fun k => s.params.any fun p => p.name == k && p.read && p.kind.isQuant) &&
+        (cs.2.isEmpty || s.params.all fun p => !p.kind.isQuant || cs.2.contains p.name)
+    | none => false
+
+theorem C13_reported_slots_read : reportedSlotsOK = true := by
+  decide
+
+theorem C13_reported_slots_classes : reportedSlots.map Prod.fst = lSpecs.map (·.name) := by
+  decide
+
+/-- the `alpha` a slot value carries, as text -/
+def alphaOf : QVal → String
+  | .obj q =>
+    match q.args.lookup "alpha" with
+    | some (.str s) => s
+    | some .none => "None"
+    | _ => "?"
+  | _ => "-"
+
+/-- witness of the seeded failure shape: `q = quantized_bits(4, 0, 1)` (alpha None) passed as
+    kernel AND bias quantizer of a QLSTM: both slots hold the object switched to
+    `alpha='auto_po2'` afterwards — the state a deep copy taken BEFORE the switch would keep
+    (`alpha = None`) is not what any slot of the layer, or of any rebuilt layer, holds or reports -/
+theorem C13_shared_kernel_bias_witness (cb : QVal → PyVal) :
+    let ref : String → Option Nat := fun k =>
+      if k == "kernel_quantizer" || k == "bias_quantizer" then some 0 else none
+    let h' := constructHeap (env cb) ls_QLSTM ref (fun _ => qb4None)
+    alphaOf (slotValue h' ref "kernel_quantizer") = "auto_po2" ∧
+      alphaOf (slotValue h' ref "bias_quantizer") = "auto_po2" ∧
+      alphaOf (slotValue h' ref "state_quantizer") = "-" ∧
+      alphaOf (.obj qb4None) = "None" := by
+  refine ⟨rfl, rfl, rfl, rfl⟩
+
+/-- Process-level switch (`set_internal_sigmoid`): no object of the model holds a copy of it —
+    whatever the mode was when the original was built and whatever it is when the route runs
+    (`built`), the route yields ONE rebuilt model, and under EVERY current mode `now` (the same for
+    both) original and rebuilt model predict identically, for every mode-dependent semantics. -/
+theorem C13_model_rebuild_predict_any_mode_partial {W V : Type} [Inhabited V] (E : Env) (m : Model)
+    (h : ∀ n ∈ m, NodeOK E n.node) (hr : modelGetConfigRaises E m = false) :
+    ∃ m', (∀ built : SigmoidMode, rebuildUnder built E m = .ok m') ∧
+      ∀ (S : ModeSem W V) (now : SigmoidMode) (ws : Nat → W) (inputs : List V),
+        predictUnder E S now m' ws inputs = predictUnder E S now m ws inputs := by
+  obtain ⟨m', hm', hp⟩ := C13_model_rebuild_predict_partial (W := W) (V := V) E m h hr
+  exact ⟨m', fun _ => hm', fun S now ws inputs => hp (S now) ws inputs⟩
+
+/-- non-vacuity: the example model under every pair of modes -/
+example {W V : Type} [Inhabited V] (cb : QVal → PyVal) :
+    ∃ m', (∀ built : SigmoidMode, rebuildUnder built (env cb) modelEx = .ok m') ∧
+      ∀ (S : ModeSem W V) (now : SigmoidMode) (ws : Nat → W) (inputs : List V),
+        predictUnder (env cb) S now m' ws inputs = predictUnder (env cb) S now modelEx ws inputs :=
+  C13_model_rebuild_predict_any_mode_partial (env cb) modelEx (modelEx_ok cb) rfl
 
 end QKV.Props.C13
